@@ -144,11 +144,30 @@ def as_collection(r, ids, kind):
         return {i: 1 for i in ids}.keys()
     if kind == 'duplist':
         return ids + ids[:1]
+    # collections that can be walked only once, and pandas containers
+    if kind == 'generator':
+        return (i for i in ids)
+    if kind == 'iterator':
+        return iter(ids)
+    if kind == 'map':
+        return map(str, ids)
+    if kind == 'pandas-index':
+        import pandas as pd
+        return pd.Index(ids, dtype=object)
+    if kind == 'pandas-series':
+        import pandas as pd
+        return pd.Series(ids, dtype=object)
+    if kind == 'deque':
+        import collections
+        return collections.deque(ids)
+    if kind == 'dictvalues':
+        return {k: i for k, i in enumerate(ids)}.values()
     raise ValueError(kind)
 
 
 COLLS = ['list', 'tuple', 'set', 'frozenset', 'ndarray', 'objarray',
-         'dictkeys', 'duplist']
+         'dictkeys', 'duplist', 'generator', 'iterator', 'map',
+         'pandas-index', 'pandas-series', 'deque', 'dictvalues']
 
 
 def note_layout(ctx, t):
@@ -371,7 +390,8 @@ def run_random(ctx, index):
         # exercise the boundary where the request is as long as the axis
         if r.random() < .5 and len(ids) >= 1:
             keep = list(ids[:-1])
-        arg = as_collection(r, keep + [bogus], r.choice(COLLS[:6]))
+        arg = as_collection(r, keep + [bogus], r.choice(
+            COLLS[:6] + COLLS[8:]))
         t = make()
         st = note_layout(ctx, t)
         before = snap.snap(t)
